@@ -1,6 +1,6 @@
 SPECIFICATION Spec
 CONSTANTS
-  Scenarios <- Thorough
+  Scenarios <- Medium
   MaxTurns = 5
   Defects = {"StaleTurnClock", "StaleCountTrigger"}
 CHECK_DEADLOCK FALSE
